@@ -91,9 +91,18 @@ let fib_string (s : state) : string =
 type op = { text : string; at : int; mutable nops : (string * int) list; mutable cbs : string list;
             mutable outs : string list; mutable pit : string; mutable fib : string }
 
+let split_digest (full : n list) : n list * n option =
+  (* the harness writes the full name of a nacked Interest; a digest component has key >= 100 *)
+  match List.rev full with
+  | last :: rest when int_of_n last >= 100 -> (List.rev rest, Some last)
+  | _ -> (full, None)
+
+(* nested operations: Express called from a callback, or the answer the replying face feeds in during Send *)
 let parse_express (f : string list) : ev option =
   match f with
   | "express" :: nm :: cbp :: dig :: life :: _ -> Some (EExpress (name_of_string nm, cbp = "1", opt_n dig, opt_n life))
+  | ["data"; nm; dd] -> Some (EData (name_of_string nm, n_of_int (int_of_string dd)))
+  | ["nack"; nm; r] -> let (nm', dig) = split_digest (name_of_string nm) in Some (ENack (nm', dig, n_of_int (int_of_string r)))
   | _ -> None
 
 (* last field "t=.." / "@.." *)
@@ -331,6 +340,8 @@ let () =
         let feed_nop (txt, _) =
           match parse_express (String.split_on_char ' ' txt) with
           | Some (EExpress (nm, cbp, dig, life)) -> feed idx ("nested " ^ txt) (SExpress (nm, cbp, dig, life)) (take_out_int ())
+          | Some (EData (nm, dd)) -> feed idx ("during-send " ^ txt) (SData (nm, dd)) (parse o.cbs)
+          | Some (ENack (nm, dig, r)) -> feed idx ("during-send " ^ txt) (SNack (nm, dig, r)) (parse o.cbs)
           | _ -> () in
         (match f with
          | "express" :: _ ->
